@@ -139,6 +139,12 @@ func c11States(env *world.Env, thorough bool) map[string]*world.World {
 	b.Must(uni.SetRole(uni.A0, uni.F, uni.NFTRoles...))
 	b.Must(uni.SetRole(uni.A0, uni.S1, vmcommon.ESDTRoleLocalMint, vmcommon.ESDTRoleLocalBurn))
 	out["aliased"] = b.W
+	// destination-side aliasing: e2 holds the fungible token "S\x01" (undisciplined system contract),
+	// whose key equals the key of the NFT (S, 1) that a0, b0 and c1 hold
+	b2 := &uni.Builder{Env: env, W: uni.Seed(env, "mixed")}
+	b2.Must(uni.SetRole(uni.E2, uni.S1, vmcommon.ESDTRoleLocalMint, vmcommon.ESDTRoleLocalBurn))
+	b2.Must(uni.Call(uni.E2, uni.E2, vmcommon.BuiltInFunctionESDTLocalMint, uni.S1, uni.Big(5)))
+	out["aliased-destination"] = b2.W
 	if thorough {
 		out["frozen"] = uni.Seed(env, "frozen")
 		out["handover"] = uni.Seed(env, "handover")
@@ -242,6 +248,27 @@ func c11Worker(tier Tier) int {
 			}
 		}
 	})
+	// aliasing probes: every transfer function between the holder of the fungible "S\x01" and the
+	// holders of the NFT (S,1), in both directions, same- and cross-shard, plus the supply functions
+	{
+		e, env := ws[0], envs[0]
+		w := states["aliased-destination"]
+		var probes []world.Action
+		for _, to := range [][]byte{uni.B0, uni.A0, uni.C1} {
+			probes = append(probes, uni.ESDTTransfer(uni.E2, to, uni.S1, 1), uni.Multi(uni.E2, to, []uni.Ent{{Tok: uni.S1, Nonce: 0, Q: 1}}),
+				uni.Multi(uni.E2, to, []uni.Ent{{Tok: uni.S, Nonce: 1, Q: 1}}), uni.NFTTransfer(uni.E2, to, uni.S, 1, 1),
+				uni.Multi(uni.E2, to, []uni.Ent{{Tok: uni.S1, Nonce: 0, Q: 5}, {Tok: uni.S1, Nonce: 0, Q: 1}}))
+		}
+		for _, from := range [][]byte{uni.A0, uni.B0, uni.C1} {
+			probes = append(probes, uni.NFTTransfer(from, uni.E2, uni.S, 1, 1), uni.Multi(from, uni.E2, []uni.Ent{{Tok: uni.S, Nonce: 1, Q: 1}}),
+				uni.ESDTTransfer(from, uni.E2, uni.S1, 1), uni.Multi(from, uni.E2, []uni.Ent{{Tok: uni.S1, Nonce: 0, Q: 1}}))
+		}
+		probes = append(probes, uni.Call(uni.E2, uni.E2, vmcommon.BuiltInFunctionESDTLocalBurn, uni.S1, uni.Big(1)), uni.SysCall(uni.E2, vmcommon.BuiltInFunctionESDTFreeze, uni.S1),
+			uni.SysCall(uni.B0, vmcommon.BuiltInFunctionESDTFreeze, uni.S1), uni.SysCall(uni.B0, vmcommon.BuiltInFunctionESDTWipe, uni.S1))
+		for _, a := range probes {
+			checkTotal(e, env, w, a, "aliased-destination")
+		}
+	}
 	ws[0].Sample(map[string]interface{}{"function": "MultiESDTNFTTransfer", "caller=recipient": "a0", "args": []string{hex.EncodeToString(uni.B0), "5555555555555556", "46"}, "expect": "error (count wraps 3n+2 to 4), no panic"})
 	// (ii) deviation-bounded: every replacement / insertion / deletion of <= d positions of every
 	// sender-side base case of the catalogue by every item of the full pool
